@@ -74,3 +74,19 @@ func stat(acc *config.TxnPoliciesAccessor) string {
 	}
 	return fmt.Sprintf("pins=%d vers=%d pinq=%d verq=%d", pins, vers, qlen("txnVersionsVacuum"), qlen("policiesVersionsVacuum"))
 }
+
+// activeVacuums counts the vacuums whose background goroutine has been started.
+func activeVacuums(acc *config.TxnPoliciesAccessor) int {
+	v := reflect.ValueOf(acc).Elem()
+	n := 0
+	for _, field := range []string{"txnVersionsVacuum", "policiesVersionsVacuum"} {
+		vac := peek(v, field).Elem()
+		mu := peek(vac, "entriesMutex").Interface().(*sync.RWMutex)
+		mu.RLock()
+		if peek(vac, "active").Bool() {
+			n++
+		}
+		mu.RUnlock()
+	}
+	return n
+}
